@@ -37,14 +37,14 @@ def check(prop, tier, seed):
     budget = getattr(mod, "BUDGET", {"quick": 150, "thorough": 900})[tier]
     deadline = t0 + budget
     cases = mod.gen_cases(tier, seed)
-    tally, failures, herrs = core.run_batch(mod.__name__, cases, deadline=deadline)
+    known_hits = {}
+    tally, failures, herrs = core.run_batch(mod.__name__, cases, deadline=deadline, known=mod.known_finding, known_hits=known_hits)
     if herrs:
         for case, msg in herrs[:3]:
             print("HARNESS-ERROR case=%s: %s" % (case.get("id"), msg), flush=True)
         core.cleanup_scratch()
         return 2
     # ---- triage failures: known findings (by predicate + neutralised twin) vs. violations
-    known_hits = {}
     violations = []
     seen_classes = set()
     for case, res in failures:
